@@ -339,6 +339,8 @@ static int popcount9(unsigned m) { return __builtin_popcount(m); }
 /* ---- giant entries and blocks (thorough tier, several GiB of memory): sizes at which zlib's 32-bit counters wrap (finding F13)
  *   kind 0: default options (zlib), one value of 2^30 incompressible bytes -> the stored block is >= 1 GiB, the reader's inflate buffer reaches 4 GiB
  *   kind 1: zlib, block_size 2^33, two values of 2^31 zero bytes -> one data block of more than 4 GiB goes through deflate and inflate
+ *   kind 2: no compression, one value of 2^31 + 2^20 zero bytes -> one stored block above Linux's per-call I/O limit of 0x7ffff000 bytes: the
+ *           kernel itself answers the block's write with a short count (seed R7-C01: a vectored write whose resume offset was wrong)
  * The round trip must return exactly the entries, as for any other table (C01); the file must satisfy the independent decoder's
  * container rules (C09: prefix, crc, index, trailer are checked by reading it back through the reader and by the trailer counts). ---- */
 typedef struct { int kind; } gcase_t;
@@ -349,13 +351,14 @@ static void giant_one(int kind) {
 	vh_case_begin(grender, &g);
 	if (!vh_batch_fork()) { vh_case_end(); return; }
 	vh_watchdog_s = 1200;
-	size_t vlen = kind == 0 ? ((size_t) 1 << 30) : ((size_t) 1 << 31); int nent = kind == 0 ? 1 : 2;
+	size_t vlen = kind == 0 ? ((size_t) 1 << 30) : kind == 2 ? ((size_t) 1 << 31) + ((size_t) 1 << 20) : ((size_t) 1 << 31); int nent = kind == 1 ? 2 : 1;
 	uint8_t *val = kind == 0 ? malloc(vlen) : calloc(vlen, 1);
 	if (!val) { printf("@note \"giant case %d skipped: this machine cannot allocate %zu bytes\"\n", kind, vlen); VH_COUNT("giant_skipped_no_memory", 1); vh_case_end(); vh_batch_exit(); }
 	if (kind == 0) { uint64_t st = 0x9e3779b97f4a7c15ull; for (size_t i = 0; i < vlen; i++) val[i] = gz_byte(&st); }
 	int fd = tbl_memfd();
 	struct mtbl_writer_options *o = mtbl_writer_options_init();
 	if (kind == 1) mtbl_writer_options_set_block_size(o, (size_t) 1 << 33);
+	if (kind == 2) mtbl_writer_options_set_compression(o, MTBL_COMPRESSION_NONE);
 	struct mtbl_writer *w = mtbl_writer_init_fd(fd, o); mtbl_writer_options_destroy(&o);
 	static const char *keys[2] = { "a", "b" }; mtbl_res r[2] = { mtbl_res_success, mtbl_res_success };
 	for (int i = 0; i < nent; i++) { r[i] = mtbl_writer_add(w, (const uint8_t *) keys[i], 1, val, vlen); vh_case_seq++; }
@@ -486,7 +489,7 @@ int main(int argc, char **argv) {
 	if (vh_case_arg) { if (replay(vh_case_arg)) fprintf(stderr, "cannot parse case %s\n", vh_case_arg); return vh_finish(); }
 	const char *mode = vh_arg(0, "struct");
 	if (!strcmp(mode, "cross4g")) { if (vh_shard == 0) cross4g(); return vh_finish(); }
-	if (!strcmp(mode, "giant")) { if (vh_shard == 0) { giant_one(0); giant_one(1); } return vh_finish(); }
+	if (!strcmp(mode, "giant")) { if (vh_shard == 0) { giant_one(2); giant_one(0); giant_one(1); } return vh_finish(); }
 	uint64_t idx = 0;
 	static const int comps[6] = { 0, 1, 3, 4, 5, 2 };
 	if (!strcmp(mode, "struct") || !strcmp(mode, "pool")) {
